@@ -239,6 +239,7 @@ def main(argv, here, repo):
     for f in sorted(ctx.failures, key=lambda f: (f["weight"], len(jdump(f["payload"])))):
         by_sig.setdefault(f["sig"], f)
     n_viol = 0
+    unrepro = 0
     matched = []
     rdir = os.path.join(os.environ.get("VERIF_REPLAY_DIR") or os.path.join(here, "replays"), prop_id)
     for sig, f in by_sig.items():
@@ -252,8 +253,10 @@ def main(argv, here, repo):
         r1 = exec_case_subprocess(here, prop_id, path, repo)
         r2 = exec_case_subprocess(here, prop_id, path, repo)
         if r1 != r2 or sig not in r1["sigs"]:
-            print(f"HARNESS ERROR: replay of {path} diverged: recorded {sig}, replays {r1} / {r2}", file=sys.stderr)
-            return 2
+            # never report what cannot be reproduced from a fresh process
+            print(f"UNREPRODUCIBLE: replay of {path} diverged: recorded {sig}, replays {r1} / {r2}", file=sys.stderr)
+            unrepro += 1
+            continue
         if kf:
             matched.append(sig)
             os.remove(path)
@@ -268,7 +271,12 @@ def main(argv, here, repo):
     write_evidence(ctx, n_viol, matched, len(ctx.failures))
     ctx.log(f"done: states={ctx.states} transitions={ctx.transitions} traces={ctx.traces} "
             f"outcomes={len(ctx.outcomes)} failures={len(ctx.failures)} distinct_sigs={len(by_sig)} violations={n_viol}")
-    return 1 if n_viol else 0
+    if n_viol:
+        return 1
+    if unrepro:
+        print("HARNESS ERROR: failures were observed that do not reproduce in a fresh process", file=sys.stderr)
+        return 2
+    return 0
 
 
 def write_evidence(ctx, n_viol, matched, n_fail):
